@@ -127,3 +127,33 @@ Definition quoted_and_kept (c : comp) (ch : N) : bool :=
   (ch <? 128) && negb (always_safe ch || mem ch (norm_safe (i2u_safe c))) && mem ch (u2i_keep c).
 Definition iri_normal (c : comp) (s : str) : str :=
   flat_map (fun ch => if quoted_and_kept c ch then pct ch else [ch]) s.
+
+(* ------------------------------------------------------------------ sansio.utils.get_host *)
+Definition ends_with (suf s : list N) : bool := starts_with (rev suf) (rev s).
+
+(* the if / elif chain: the first branch whose scheme set holds the scheme and whose suffix ends
+   the host cuts k characters (host[:-k]); rules come from Gen.default_port_rules *)
+Fixpoint strip_rules (rules : list (list (list N) * list N * nat)) (scheme host : str) : str :=
+  match rules with
+  | [] => host
+  | (schemes, suf, k) :: r =>
+      if existsb (list_eqb scheme) schemes && ends_with suf host
+      then firstn (length host - k) host
+      else strip_rules r scheme host
+  end.
+Definition strip_default_port (scheme host : str) : str := strip_rules default_port_rules scheme host.
+
+(* get_host without trusted_hosts; the server port arrives as its decimal text (str(port)) *)
+Definition get_host (scheme : str) (host_header : option str) (server : option (str * option str)) : str :=
+  let host :=
+    match host_header with
+    | Some h => h
+    | None =>
+        match server with
+        | Some (name, port) =>
+            let h := if mem 58 name && negb (starts_with [91] name) then 91 :: name ++ [93] else name in
+            match port with Some p => h ++ 58 :: p | None => h end
+        | None => []
+        end
+    end in
+  strip_default_port scheme host.
